@@ -174,19 +174,31 @@ def judge(R: Recorder, tree: dict[str, Any], chooser: Chooser, out: dict[str, An
         if e[0] in ("construct", "exit", "completion", "enter"):
             pos.setdefault((e[0], e[1]), []).append(i)
     parents = tree["parents"]
-    # harness-defined subtree: child attached iff constructed before the parent's completion was invoked
+    # harness-defined subtree, derived from construct / exit events only (never from the callbacks under test): a scope is
+    # complete once it was left and every attached child is complete; a child is attached iff its parent was not complete yet
+    # when the child was constructed (a later one is a root of its own - "late")
     attached: dict[int, list[int]] = {i: [] for i in range(n)}
     late = 0
-    for c in range(1, n):
-        p = parents[c]
-        cons = pos.get(("construct", f"n{c}"), [None])[0]
-        pcomp = pos.get(("completion", f"n{p}"), [None])[0]
-        if cons is None:
-            continue
-        if pcomp is None or cons < pcomp:
-            attached[p].append(c)
-        else:
-            late += 1
+    exited: set[int] = set()
+    complete: set[int] = set()
+
+    def settle(i: int) -> None:
+        if i in exited and i not in complete and all(c in complete for c in attached[i]):
+            complete.add(i)
+            if parents[i] >= 0 and i in attached[parents[i]]:
+                settle(parents[i])
+
+    for e in ev:
+        if e[0] == "construct" and e[1][1:].isdigit():
+            c = int(e[1][1:])
+            if c > 0 and c < n:
+                if parents[c] in complete:
+                    late += 1
+                else:
+                    attached[parents[c]].append(c)
+        elif e[0] == "exit" and e[1][1:].isdigit() and int(e[1][1:]) < n:
+            exited.add(int(e[1][1:]))
+            settle(int(e[1][1:]))
 
     def subtree(i: int) -> list[int]:
         res = [i]
@@ -249,6 +261,7 @@ def all_trees(tier: str, rng: random.Random):  # noqa: ANN201
                     if n == 2:
                         yield {"parents": parents, "kinds": list(kinds), "places": ["root", *places], "callbacks": ["async-object", "async-partial"]}
                         yield {"parents": parents, "kinds": list(kinds), "places": ["root", *places], "callbacks": ["async-method", "async-object"]}
+                        yield {"parents": parents, "kinds": list(kinds), "places": ["root", *places], "callbacks": ["sync-falsy-object", "sync"]}
                     yield {"parents": parents, "kinds": list(kinds), "places": ["root", *places], "callbacks": cbs}
                     if n >= 2 and kinds[-1] == "ascope":
                         yield {"parents": parents, "kinds": list(kinds), "places": ["root", *places], "callbacks": cbs, "fails": [False] * (n - 1) + [True]}
@@ -259,7 +272,7 @@ def all_trees(tier: str, rng: random.Random):  # noqa: ANN201
         n = rng.choice([3, 4, 4, 5])
         parents = rng.choice(list(trees(n)))
         yield {"parents": parents, "kinds": [rng.choice(["ascope", "sscope"]) for _ in range(n)], "places": ["root"] + [rng.choice(["inline", "spawn", "plain", "plain"]) for _ in range(n - 1)],
-               "callbacks": [rng.choice(["sync", "async", "sync-raise", "async-raise", "sync", "async-object", "async-partial", "async-method"]) for _ in range(n)], "fails": [rng.random() < 0.25 for _ in range(n)],
+               "callbacks": [rng.choice(["sync", "async", "sync-raise", "async-raise", "sync", "async-object", "async-partial", "async-method", "sync-falsy-object"]) for _ in range(n)], "fails": [rng.random() < 0.25 for _ in range(n)],
                "traces": [rng.choice([None, None, "shared", f"own-{i}"]) for i in range(n)]}
 
 
